@@ -180,7 +180,7 @@ theorem step_keeps_barred (P : Params) (cfg : List Key) (s : Sys) (e : Ev) (m : 
   cases e with
   | tick dt => exact hb
   | restart => exact hb
-  | boot => exact hb
+  | boot fl => exact hb
   | damage dm =>
     cases dm with
     | tomb => exact Or.inl rfl
@@ -887,11 +887,25 @@ marker — is not in the trust set a new process starts with; a tombstone store
 that does not decode leaves it empty; a configured key carrying the REVOKE bit
 is never in it. No read assumption: this is the set validation uses before the
 first refresh. -/
-theorem startup_excludes_barred (cfg : List Key) (d : Disk) (m : Nat) (hb : Barred d m) :
-    ∀ k ∈ startupKeys cfg d, k.mat ≠ m ∧ k.revoke = false := by
+theorem startup_excludes_barred (cfg : List Key) (d : Disk) (fl : Faults) (m : Nat) (hb : Barred d m)
+    (hs : fl.stateRead = true → MarkersCovered d) :
+    ∀ k ∈ startupKeys cfg d fl, k.mat ≠ m ∧ k.revoke = false := by
   intro k hk
   unfold startupKeys at hk
-  rcases hb with hc | ⟨ms, hms, hm⟩ | ⟨tas, htas, ta, hta, hmat, hmark⟩
+  split at hk
+  · cases hk
+  -- reduce a marker-only record under a state read fault to a tombstone record
+  have hb' : d.tomb.undecodable = true ∨ (∃ ms, d.tomb = .ok ms ∧ m ∈ ms) ∨
+      (fl.stateRead = false ∧ ∃ tas, d.state = .ok tas ∧ ∃ ta ∈ tas, ta.key.mat = m ∧ isMarker ta.st = true) := by
+    rcases hb with hc | h2 | ⟨tas, htas, ta, hta, hmat, hmark⟩
+    · exact Or.inl hc
+    · exact Or.inr (Or.inl h2)
+    · by_cases hsr : fl.stateRead = true
+      · rcases hs hsr tas htas ta hta hmark with hc | ⟨ms, hms, hm⟩
+        · exact Or.inl hc
+        · exact Or.inr (Or.inl ⟨ms, hms, hmat ▸ hm⟩)
+      · exact Or.inr (Or.inr ⟨by simpa using hsr, tas, htas, ta, hta, hmat, hmark⟩)
+  rcases hb' with hc | ⟨ms, hms, hm⟩ | ⟨hsr, tas, htas, ta, hta, hmat, hmark⟩
   · cases htomb : d.tomb <;> simp_all [FileC.undecodable]
   · simp only [hms] at hk
     obtain ⟨_, h2⟩ := List.mem_filter.mp hk
@@ -902,7 +916,7 @@ theorem startup_excludes_barred (cfg : List Key) (d : Disk) (m : Nat) (hb : Barr
     exact h3.1 (h ▸ hm)
   · have hmk : m ∈ (tas.filter (fun ta => isMarker ta.st)).map (·.key.mat) :=
       List.mem_map.mpr ⟨ta, List.mem_filter.mpr ⟨hta, hmark⟩, hmat⟩
-    simp only [htas] at hk
+    simp only [htas, hsr, Bool.false_eq_true, if_false] at hk
     cases htomb : d.tomb with
     | empty => simp [htomb] at hk
     | corrupt => simp [htomb] at hk
@@ -923,30 +937,38 @@ theorem startup_excludes_barred (cfg : List Key) (d : Disk) (m : Nat) (hb : Barr
       simp only [List.contains_eq_mem, List.mem_append, decide_eq_false_iff_not, not_or] at h3
       exact h3.2 (h ▸ hmk)
 
+/-- **A store that cannot be read at process start leaves nothing to trust** —
+for EVERY read error (open / read errors like EIO, EMFILE, EACCES, ELOOP, not
+only undecodable bytes). -/
+theorem startup_unreadable_fail_closed (cfg : List Key) (d : Disk) (fl : Faults) (h : fl.tombRead = true) :
+    startupKeys cfg d fl = [] := by
+  unfold startupKeys; simp [h]
+
 /-- **tombstone_permanent from process start.** Once a revocation is on record,
 the trust set of every process started afterwards — before its first refresh,
 while it primes and answers queries — has no key of that material (histories as
 in `tombstone_permanent_partial`). -/
 theorem tombstone_permanent_from_process_start (P : Params) (cfg : List Key) (s : Sys) (evs : List Ev) (m : Nat)
-    (hb : Barred s.disk m) (hok : HistOK P cfg s evs) :
-    ∀ live, (runHist P cfg s (evs ++ [.boot])).proc = some live → ∀ k ∈ live, k.mat ≠ m := by
-  have hb' := barred_monotone P cfg s evs m hok hb
+    (fl : Faults) (hb : Barred s.disk m) (hok : HistOK P cfg s (evs ++ [.boot fl])) :
+    ∀ live, (runHist P cfg s (evs ++ [.boot fl])).proc = some live → ∀ k ∈ live, k.mat ≠ m := by
+  obtain ⟨h1, h2⟩ := (histOK_append P cfg s evs _).mp hok
+  have hb' := barred_monotone P cfg s evs m h1 hb
   intro live hl k hk
-  have hrun : runHist P cfg s (evs ++ [.boot]) = step P cfg (runHist P cfg s evs) .boot := by simp [runHist]
+  have hrun : runHist P cfg s (evs ++ [.boot fl]) = step P cfg (runHist P cfg s evs) (.boot fl) := by simp [runHist]
   rw [hrun] at hl
   simp only [step, Option.some.injEq] at hl
   subst hl
-  exact (startup_excludes_barred cfg _ m hb' k hk).1
+  exact (startup_excludes_barred cfg _ fl m hb' h2.1 k hk).1
 
 /-- ... so from process start on a revoked key validates nothing: a response
 validates in the new process only through a live key of other material. -/
 theorem revoked_key_never_validates_from_start (P : Params) (cfg : List Key) (s : Sys) (evs : List Ev) (m : Nat)
-    (hb : Barred s.disk m) (hok : HistOK P cfg s evs)
-    (live : List Key) (hl : (runHist P cfg s (evs ++ [.boot])).proc = some live)
+    (fl : Faults) (hb : Barred s.disk m) (hok : HistOK P cfg s (evs ++ [.boot fl]))
+    (live : List Key) (hl : (runHist P cfg s (evs ++ [.boot fl])).proc = some live)
     (g : Fetch) (hv : validates live g = true) (hne : g.keys ≠ []) :
     ∃ k ∈ live, k.mat ≠ m ∧ signedBy g.signers k = true := by
   obtain ⟨k, hk, _, hs⟩ := (validation_needs_live_signature live g hv).1 hne
-  exact ⟨k, hk, tombstone_permanent_from_process_start P cfg s evs m hb hok live hl k hk, hs⟩
+  exact ⟨k, hk, tombstone_permanent_from_process_start P cfg s evs m fl hb hok live hl k hk, hs⟩
 
 /-! ## the add hold-down over histories -/
 
@@ -958,12 +980,12 @@ theorem step_holdInv (P : Params) (hP : thirtyDays ≤ P.addHold) (cfg : List Ke
   | tick dt =>
     exact ⟨hinv.disk, hinv.live, fun k t0 h => by have := hinv.clock k t0 h; simp [step]; omega⟩
   | restart => exact ⟨hinv.disk, (by intro l h; cases h), hinv.clock⟩
-  | boot =>
+  | boot fl =>
     refine ⟨hinv.disk, ?_, hinv.clock⟩
     intro l hl k hk
     simp only [step, Option.some.injEq] at hl
     subst hl
-    exact Or.inl (startupKeys_sub cfg s.disk k hk)
+    exact Or.inl (startupKeys_sub cfg s.disk fl k hk)
   | damage dm =>
     cases dm with
     | tomb => exact ⟨hinv.disk, hinv.live, hinv.clock⟩
@@ -975,7 +997,7 @@ theorem step_holdInv (P : Params) (hP : thirtyDays ≤ P.addHold) (cfg : List Ke
       intro k hk
       unfold startLive at hk
       cases hp : s.proc with
-      | none => rw [hp] at hk; exact Or.inl (startupKeys_sub cfg s.disk k hk)
+      | none => rw [hp] at hk; exact Or.inl (startupKeys_sub cfg s.disk {} k hk)
       | some l => rw [hp] at hk; exact hinv.live l hp k hk
     rw [step_run_eq]
     rcases autoTA_inv P cfg s.disk (startLive cfg s) f fl s.now with ⟨hw, _, ha, hl⟩ | ⟨tomb0, f', a, hrt, hf, _, hane, heq⟩
@@ -1384,11 +1406,13 @@ example : (autoTA {} [kA, kB] { tomb := .ok [1] } [kA, kB] none {} 0).pre = some
 
 -- startup: revocation of kA tombstoned, restart, NewResolver: kA is not trusted before the first refresh,
 -- and a response signed by kA alone does not validate (before /repo 24304ea: `some [kA, kB]`, validated)
-example : (runHist {} [kA, kB] {} [.run (some revokeA) {} none, .restart, .boot]).proc = some [kB] := by decide
+example : (runHist {} [kA, kB] {} [.run (some revokeA) {} none, .restart, .boot {}]).proc = some [kB] := by decide
+-- ... and with the store unopenable at that start (seeded C09-16): nothing is trusted
+example : (runHist {} [kA, kB] {} [.run (some revokeA) {} none, .restart, .boot { tombRead := true }]).proc = some [] := by decide
 example : validates [kB] { keys := [kA, kB], signers := [kA] } = false := by decide
 example : ∀ k ∈ [kB], k.mat ≠ 1 :=
-  tombstone_permanent_from_process_start {} [kA, kB] (runHist {} [kA, kB] {} [.run (some revokeA) {} none]) [.restart] 1
-    (Or.inr (Or.inl ⟨[1], by decide, by decide⟩)) ⟨trivial, trivial⟩ [kB] (by decide)
+  tombstone_permanent_from_process_start {} [kA, kB] (runHist {} [kA, kB] {} [.run (some revokeA) {} none]) [.restart] 1 {}
+    (Or.inr (Or.inl ⟨[1], by decide, by decide⟩)) ⟨trivial, (by intro h; cases h), trivial⟩ [kB] (by decide)
 -- every configured key barred: the process starts fail closed and the pre-fetch publication is skipped
 example : (autoTA {} [kA] { tomb := .ok [1] } (startupKeys [kA] { tomb := .ok [1] }) none {} 0).pre = some [] := by decide
 -- marker-only record and zero-length store at start
@@ -1422,5 +1446,16 @@ example : serve [kA] false true = .answered true := by decide
 example : serve [] true true = .answered false := by decide
 example : serve (autoTA {} [kA, kB] {} [kA, kB] (some revokeA) { tombWrite := true, stateWrite := true } 0).live false false
     = .servfail := unrecorded_revocation_serves_nothing {} [kA, kB] {} [kA, kB] _ _ 0 false (by decide) rfl rfl
+
+-- permanence is not a matter of age (seeded C09-18): 1200 days after the revocation, two more refreshes and a restart
+example : (runHist {} [kA, kB] {} [.run (some revokeA) {} none, .tick (1200 * 86400),
+    .run (some { keys := [kB], signers := [kB] }) {} none, .tick (12 * 3600),
+    .run (some { keys := [kB], signers := [kB] }) {} none, .restart, .boot {}]) =
+    { disk := { state := .ok [⟨kB, .valid, 0⟩], tomb := .ok [1] }, proc := some [kB], now := 1200 * 86400 + 12 * 3600 } := by
+  decide
+-- the REVOKE form kA' (tag 1128) has the tag of another TRACKED key (seeded C09-17): still a revocation
+example : (autoTA {} [kA, { kB with tag := 1128 }] {} [kA, { kB with tag := 1128 }]
+    (some { keys := [{ kB with tag := 1128 }, kA'], signers := [{ kB with tag := 1128 }, kA'] }) {} 0).revoked = [1] := by
+  decide
 
 end SdnsVerif.Props.C09
